@@ -1,6 +1,7 @@
 package vc
 
 import (
+	"os"
 	"fmt"
 	"go/types"
 	"regexp"
@@ -127,7 +128,7 @@ func (e *Engine) Solve(dir string, timeoutS int, all bool, par chan struct{}) []
 		par <- struct{}{}
 		r := smt.Solve(script, dir, name, timeoutS, all)
 		<-par
-		if r.Status == "unsat" || r.Status == "sat" || timeoutS < 30 {
+		if r.Status == "unsat" || r.Status == "sat" || timeoutS < 30 || os.Getenv("GOVC_NORETRY") != "" {
 			return r
 		}
 		// not decided within the budget: on a loaded machine the slow obligations (CRC-24 equivalence, a few byte-level
